@@ -85,6 +85,12 @@ theorem prj_sub_basic_a1 (p q : EPt C) : EdP.ed_sub_basic_a1 o cv p q = EdP.ed_s
 theorem prj_sub_basic_a2 (p q : EPt C) : EdP.ed_sub_basic_a2 o cv p q = EdP.ed_sub_basic o cv q p q := rfl
 theorem prj_sub_projc_a1 (p q : EPt C) : EdP.ed_sub_projc_a1 o cv p q = EdP.ed_sub_projc o cv p p q := rfl
 theorem prj_sub_projc_a2 (p q : EPt C) : EdP.ed_sub_projc_a2 o cv p q = EdP.ed_sub_projc o cv q p q := rfl
+theorem prj_add_extnd_a1 (p q : EPt C) : EdP.ed_add_extnd_a1 o cv p q = EdP.ed_add_extnd o cv p p q := rfl
+theorem prj_add_extnd_a2 (p q : EPt C) : EdP.ed_add_extnd_a2 o cv p q = EdP.ed_add_extnd o cv q p q := rfl
+theorem prj_add_extnd_a3 (r p : EPt C) : EdP.ed_add_extnd_a3 o cv r p = EdP.ed_add_extnd o cv r p p := rfl
+theorem prj_add_extnd_a4 (p : EPt C) : EdP.ed_add_extnd_a4 o cv p = EdP.ed_add_extnd o cv p p p := rfl
+theorem prj_sub_extnd_a1 (p q : EPt C) : EdP.ed_sub_extnd_a1 o cv p q = EdP.ed_sub_extnd o cv p p q := rfl
+theorem prj_sub_extnd_a2 (p q : EPt C) : EdP.ed_sub_extnd_a2 o cv p q = EdP.ed_sub_extnd o cv q p q := rfl
 
 /-- the formula code proper does not depend on the build: only ed_neg_projc, ed_set_infty, ed_copy, ed_norm_imp do -/
 theorem prj_formulas_eq :
@@ -166,10 +172,11 @@ theorem neg_projc_correct_prj (cv : EdC F) (r p : EPt F) (x y : F) (hp : Rep p x
     refine ⟨⟨hz, ?_, hy⟩, hb, rfl⟩
     simp only [fieldOps, hx]; ring
 
-/-- ed_neg_basic writes x, y and the flag only: z (and T) keep the previous content of the destination (finding C17-F7) -/
+/-- ed_neg_basic: −P, z copied from the operand (T keeps the previous content of the destination: the affine routines do not
+    maintain it) -/
 theorem neg_basic_correct (cv : EdC F) (r p : EPt F) (hc : p.coord = .basic) :
     let s := Ed.ed_neg_basic fieldOps cv r p
-    s.x = -p.x ∧ s.y = p.y ∧ (EPt.isInfty fieldOps p = false → s.z = r.z ∧ s.coord = .basic) := by
+    s.x = -p.x ∧ s.y = p.y ∧ (EPt.isInfty fieldOps p = false → s.z = p.z ∧ s.coord = .basic) := by
   rcases p with ⟨X, Y, Z, T, c⟩
   simp only at hc
   subst hc
@@ -182,7 +189,24 @@ theorem neg_basic_correct (cv : EdC F) (r p : EPt F) (hc : p.coord = .basic) :
     · simp [Ed.ed_set_infty, fieldOps]
     · simp [Ed.ed_set_infty, fieldOps]
     · rw [hi] at h; exact absurd h (by simp)
-  · simp [fieldOps]
+  · refine ⟨rfl, rfl, fun _ => ⟨rfl, rfl⟩⟩
+
+/-- … as a representation: a normalised operand gives a normalised representation of −P -/
+theorem neg_basic_rep (cv : EdC F) (r p : EPt F) (x y : F) (hc : p.coord = .basic) (hp : Rep p x y) (hb : BasicZ1 p) :
+    let s := Ed.ed_neg_basic fieldOps cv r p
+    Rep s (-x) y ∧ BasicZ1 s := by
+  rcases p with ⟨X, Y, Z, T, c⟩
+  simp only at hc
+  subst hc
+  simp only [Ed.ed_neg_basic]
+  split_ifs with hi
+  · obtain ⟨hx0, hy1⟩ := infty_rep _ x y hp hb hi
+    subst hx0 hy1
+    simp [Ed.ed_set_infty, fieldOps, Rep, BasicZ1]
+  · obtain ⟨hz, hx, hy⟩ := hp
+    simp only at hz hx hy
+    refine ⟨⟨hz, ?_, hy⟩, hb⟩
+    simp only [fieldOps, hx]; ring
 
 theorem norm_correct (cv : EdC F) (r p : EPt F) (x y : F) (hp : Rep p x y) (hb : BasicZ1 p) :
     let s := Ed.ed_norm fieldOps cv r p
@@ -331,12 +355,62 @@ theorem sub_projc_correct (cv : EdC F) (r p q : EPt F) (x1 y1 x2 y2 : F) (hp : R
   obtain ⟨ha, _, hc⟩ := add_projc_correct cv r p _ x1 y1 (-x2) y2 hp hn h1 h2
   exact ⟨ha, hc⟩
 
+/-- the subtrahend ed_sub_extnd builds: ed_neg_projc(t, q) followed by t->t = −q->t (so that the routine does not depend on
+    the build's ed_neg_projc maintaining T) -/
+theorem neg_with_t (cv : EdC F) (q : EPt F) (x y : F) (hq : RepT q x y) (hb : BasicZ1 q) :
+    let n := Ed.ed_neg_projc fieldOps cv (EPt.junk fieldOps) q
+    RepT ⟨n.x, n.y, n.z, fieldOps.neg q.t, n.coord⟩ (-x) y := by
+  rcases q with ⟨X, Y, Z, T, c⟩
+  obtain ⟨hr, ht⟩ := hq
+  simp only at ht
+  simp only [Ed.ed_neg_projc]
+  split_ifs with hi
+  · obtain ⟨hx0, hy1⟩ := infty_rep _ x y hr hb hi
+    subst hx0 hy1
+    simp [Ed.ed_set_infty, fieldOps, RepT, Rep, ht]
+  · obtain ⟨hz, hx, hy⟩ := hr
+    simp only at hz hx hy
+    refine ⟨⟨hz, ?_, hy⟩, ?_⟩
+    · simp only [fieldOps, hx]; ring
+    · simp only [fieldOps, ht]; ring
+
+theorem neg_with_t_prj (cv : EdC F) (q : EPt F) (x y : F) (hq : RepT q x y) (hb : BasicZ1 q) :
+    let n := EdP.ed_neg_projc fieldOps cv (EPt.junk fieldOps) q
+    RepT ⟨n.x, n.y, n.z, fieldOps.neg q.t, n.coord⟩ (-x) y := by
+  rcases q with ⟨X, Y, Z, T, c⟩
+  obtain ⟨hr, ht⟩ := hq
+  simp only at ht
+  simp only [EdP.ed_neg_projc]
+  split_ifs with hi
+  · obtain ⟨hx0, hy1⟩ := infty_rep _ x y hr hb hi
+    subst hx0 hy1
+    simp [EdP.ed_set_infty, fieldOps, RepT, Rep, ht]
+  · obtain ⟨hz, hx, hy⟩ := hr
+    simp only at hz hx hy
+    refine ⟨⟨hz, ?_, hy⟩, ?_⟩
+    · simp only [fieldOps, hx]; ring
+    · simp only [fieldOps, ht]; ring
+
 theorem sub_extnd_correct (cv : EdC F) (r p q : EPt F) (x1 y1 x2 y2 : F) (hp : RepT p x1 y1) (hq : RepT q x2 y2)
     (hb : BasicZ1 q) (h1 : 1 + cv.d * x1 * (-x2) * y1 * y2 ≠ 0) (h2 : 1 - cv.d * x1 * (-x2) * y1 * y2 ≠ 0) :
     let s := Ed.ed_sub_extnd fieldOps cv r p q
-    RepT s (addX cv.d x1 y1 (-x2) y2) (addY cv.a cv.d x1 y1 (-x2) y2) ∧ s.coord = .extnd := by
-  obtain ⟨hn, _, ht⟩ := neg_projc_correct cv (EPt.junk fieldOps) q x2 y2 hq.1 hb
-  exact add_extnd_correct cv r p _ x1 y1 (-x2) y2 hp ⟨hn, ht hq.2⟩ h1 h2
+    RepT s (addX cv.d x1 y1 (-x2) y2) (addY cv.a cv.d x1 y1 (-x2) y2) ∧ s.coord = .extnd :=
+  add_extnd_correct cv r p _ x1 y1 (-x2) y2 hp (neg_with_t cv q x2 y2 hq hb) h1 h2
+
+/-- the same routine in the builds without the fourth coordinate (PROJC, BASIC): correct there too since the /repo fix of
+    finding C17-F6 (the formula code `ed_add_extnd` is build independent) -/
+theorem sub_extnd_correct_prj (cv : EdC F) (r p q : EPt F) (x1 y1 x2 y2 : F) (hp : RepT p x1 y1) (hq : RepT q x2 y2)
+    (hb : BasicZ1 q) (h1 : 1 + cv.d * x1 * (-x2) * y1 * y2 ≠ 0) (h2 : 1 - cv.d * x1 * (-x2) * y1 * y2 ≠ 0) :
+    let s := EdP.ed_sub_extnd fieldOps cv r p q
+    RepT s (addX cv.d x1 y1 (-x2) y2) (addY cv.a cv.d x1 y1 (-x2) y2) ∧ s.coord = .extnd :=
+  add_extnd_correct cv r p _ x1 y1 (-x2) y2 hp (neg_with_t_prj cv q x2 y2 hq hb) h1 h2
+
+/-- p == q (pointer equality): the neutral element with T = 0, in every build -/
+theorem sub_extnd_same (cv : EdC F) (r p : EPt F) :
+    RepT (Ed.ed_sub_extnd_a3 fieldOps cv r p) 0 1 ∧ RepT (EdP.ed_sub_extnd_a3 fieldOps cv r p) 0 1 ∧
+    RepT (Ed.ed_sub_extnd_a4 fieldOps cv p) 0 1 ∧ RepT (EdP.ed_sub_extnd_a4 fieldOps cv p) 0 1 := by
+  simp [Ed.ed_sub_extnd_a3, EdP.ed_sub_extnd_a3, Ed.ed_sub_extnd_a4, EdP.ed_sub_extnd_a4, Ed.ed_set_infty, EdP.ed_set_infty,
+    fieldOps, RepT, Rep]
 
 theorem sub_basic_correct (cv : EdC F) (r p q : EPt F) (hc : q.coord = .basic) :
     let s := Ed.ed_sub_basic fieldOps cv r p q
